@@ -136,33 +136,36 @@ def check_chart(ctx, schedule, ax, want, xlim, labels, where, machine_labels=Non
     handles = list(leg.legend_handles) if leg is not None else []
     texts = [t.get_text() for t in leg.get_texts()] if leg is not None else []
     jobs_present = sorted({j for _, _, _, j in want})
-    if len(texts) != len(jobs_present) or len(handles) != len(jobs_present):
+    n_jobs = schedule.instance.num_jobs
+    # the legend names every job that has a bar (it may list the instance's other jobs as well)
+    if len(handles) != len(texts) or len(texts) not in (len(jobs_present), n_jobs):
         ctx.violation("c20_legend_entries", dict(w, got=texts, want_jobs=jobs_present))
         return
+    listed = jobs_present if len(texts) == len(jobs_present) else list(range(n_jobs))
     # which legend entry stands for which job
     if labels:
-        want_labels = [labels[j] for j in jobs_present]
+        want_labels = [labels[j] for j in listed]
         if sorted(texts) != sorted(want_labels):
             ctx.violation("c20_legend_entries", dict(w, got=texts, want=want_labels))
             return
         if len(set(want_labels)) == len(want_labels):
-            entry_of_job = {j: texts.index(labels[j]) for j in jobs_present}
+            entry_of_job = {j: texts.index(labels[j]) for j in listed}
         else:
             if texts != want_labels:     # repeated label texts: entries are taken in job order
                 ctx.violation("c20_legend_entries", dict(w, got=texts, want=want_labels))
                 return
-            entry_of_job = {j: i for i, j in enumerate(jobs_present)}
+            entry_of_job = {j: i for i, j in enumerate(listed)}
     else:
         entry_of_job = {}
-        for j in jobs_present:
+        for j in listed:
             hit = [i for i, t in enumerate(texts) if _has_number(t, j)]
             if len(hit) != 1:
                 ctx.violation("c20_legend_entries",
                               dict(w, got=texts, note=f"no unique default entry naming job {j}"))
                 return
             entry_of_job[j] = hit[0]
-        if len(set(entry_of_job.values())) != len(jobs_present):
-            ctx.violation("c20_legend_entries", dict(w, got=texts, want_jobs=jobs_present))
+        if len(set(entry_of_job.values())) != len(listed):
+            ctx.violation("c20_legend_entries", dict(w, got=texts, want_jobs=listed))
             return
     colour_of_job = {j: tuple(round(float(c), 6) for c in handles[i].get_facecolor())
                      for j, i in entry_of_job.items()}
